@@ -6,65 +6,63 @@ From C15 Require Import Model ProofsBase ModelPoly ProofsPoly ModelExt.
 Import ListNotations.
 Local Open Scope Z_scope.
 
+(* ---- modin(A,B), the in place remainder round by round (ModelExt.pmodin_gen): modin(A,A) runs exactly one round — the
+        sizes are equal, i = 0, and the loop variable only decreases — and that round reads the same cells whether B is the
+        object A or a distinct object with the same value: the value is the one of the call on distinct objects *)
+Lemma pmodin_self : forall p x, pmodin_gen p true x x = pmodin_gen p false x x.
+Proof.
+  intros p x. unfold pmodin_gen. rewrite Z.sub_diag. change (0 <? 0) with false. cbv iota.
+  cbn [modin_loop]. change (0 <? 0) with false. cbv iota.
+  rewrite rev_involutive, strip0_idem.
+  destruct (modin_round p (rev (strip0 p x)) (rev (strip0 p x))) as [ra j].
+  destruct (length (strip0 p x)) as [|n]; [reflexivity|].
+  cbn [modin_loop].
+  assert (E : (0 - Z.of_nat j - 1 <? 0) = true) by (apply Z.ltb_lt; lia).
+  rewrite E. reflexivity.
+Qed.
+Lemma strip0_pmodin : forall p s a b, strip0 p (pmodin_gen p s a b) = pmodin_gen p s a b.
+Proof.
+  intros. unfold pmodin_gen. destruct (_ <? 0); [apply strip0_idem|].
+  destruct (modin_loop _ _ _ _ _ _). apply strip0_idem.
+Qed.
+Lemma pmodin_strip0_r : forall p s a b, pmodin_gen p s a (strip0 p b) = pmodin_gen p s a b.
+Proof. intros. unfold pmodin_gen. rewrite strip0_idem. reflexivity. Qed.
+
 Ltac erun :=
   cbv [freshP pexec pbind pret pload pstor pupd pskip pmk4 pmk5 loc_eqb Nat.eqb fst snd orb
-       V_assign V_add V_sub V_neg V_addin V_subin V_negin V_div V_reversein V_mul_body V_sqr_body V_reverse_copy
+       V_assign V_add V_sub V_neg V_addin V_subin V_negin V_reversein V_mul_body V_sqr_body V_reverse_copy
+       V_zero V_divsc V_coef0 V_resize V_reverse_copy_n V_invmodpowx_body V_multrunc P_reverse_n P_invmodpowx
+       P_div_gen P_div
        P_mul P_sqr P_reverse P_mulin P_axpy P_axmy P_maxpy P_axpyin P_maxpyin P_axmyin P_divmod P_mod poly_op
-       V_copy V_zero V_const V_leadcoef V_iszero V_divsc V_mulsc_in V_modin V_invmod V_modin_k V_invmod_k
+       prd V_copy V_const V_assign_arg V_leadcoef V_iszero V_mulsc_in V_modin V_modin_k
        E_add E_sub E_neg E_mul E_inv E_div E_addin E_subin E_negin E_axpy
        E_maxpy_body E_maxpyin_body E_axmy_body E_maxpy E_maxpyin E_axmy E_axmyin E_mulin E_invin E_divin E_axpyin
        E_maxpy_byref E_maxpyin_byref E_axmy_byref E_axmyin_byref ext_op ext_op_byref
-       DMI_body P_divmodin P_divmodin_unguarded P_divin P_modin P_divsc
+       DMI_body P_divmodin P_divmodin_unguarded P_divin P_modin P_divsc P_invmod_l
        V_pdivmod_body P_pdivmod V_pmod_body P_pmod P_pmod_unguarded P_add_sc P_sub_sc P_sc_sub
-       X_step X_gcd_body P_gcdx P_gcdx_unguarded L_body P_lcm P_lcm_unguarded
-       PW_odd PW_sq PW_body P_powmod polyB_op pmodv].
+       X_head X_half X_step I_step P_invmod X_gcd_body P_gcdx P_gcdx_unguarded L_body P_lcm P_lcm_unguarded
+       PW_odd PW_sq PW_body P_powmod polyB_op pmodinv].
 Ltac estep := repeat (progress (erun; cbn [Pos.eqb]; pos_facts; cbv iota)).
-Ltac esolve := estep; repeat (first [split_cond | split_pair]; estep); rewrite ?strip0_idem, ?strip0_pdivv; try reflexivity.
+(* the same with the value functions pmodv / pdivv opened: where a specification that mentions them is compared with
+   an execution of P_div (the conditions of the three routes are then split on both sides together) *)
+Ltac estepv := repeat (progress (erun; cbv [pmodv pdivv]; cbn [Pos.eqb]; pos_facts; cbv iota)).
+(* a condition already decided may come back when a later statement reads the same operands again *)
+Ltac use_conds :=
+  repeat match goal with
+         | H : ?c = true |- context [if ?c then _ else _] => rewrite H
+         | H : ?c = false |- context [if ?c then _ else _] => rewrite H
+         end.
+Ltac econd := rewrite ?strip0_idem; repeat (progress (use_conds; estep; rewrite ?strip0_idem)).
+Ltac econdv := rewrite ?strip0_idem; repeat (progress (use_conds; estepv; rewrite ?strip0_idem)).
+Ltac esolve := estep; econd; repeat (first [split_cond | split_pair]; estep; econd);
+               rewrite ?length_ptrunc, ?strip0_idem, ?strip0_pdivsc, ?strip0_pdivv, ?pmodin_self, ?strip0_pmodin; try reflexivity.
+Ltac esolvev := estepv; econdv; repeat (first [split_cond | split_pair]; estepv; econdv);
+                rewrite ?length_ptrunc, ?strip0_idem, ?strip0_pdivsc, ?strip0_pdivv, ?pmodin_self, ?strip0_pmodin; try reflexivity.
 
-(* ================================================================== Extension<BaseField> *)
-Definition Ext_alias_free (p : Z) (irred : poly) : Prop :=
-  (forall n, (n <= 8)%nat -> Pure_destP (ext_op p irred n)) /\
-  (forall n, (9 <= n)%nat -> InplaceP (ext_op p irred n)) /\
-  (forall n, FrameP (ext_op p irred n)).
-
-Lemma ext_pure : forall p irred n, (n <= 8)%nat -> Pure_destP (ext_op p irred n).
-Proof. intros p irred n Hn h r a b c g. each_op n; split_locs; esolve. Qed.
-Lemma ext_inplace : forall p irred n, (9 <= n)%nat -> InplaceP (ext_op p irred n).
-Proof. intros p irred n Hn h r a b c. each_op n; split_locs; esolve. Qed.
-Lemma ext_frame : forall p irred n, FrameP (ext_op p irred n).
-Proof. intros p irred n h r a b c l N. each_op n; split_locs; esolve. Qed.
-Lemma ext_alias_free : forall p irred, Ext_alias_free p irred.
-Proof. intros. split; [|split]; intros; [apply ext_pure|apply ext_inplace|apply ext_frame]; assumption. Qed.
-
-(* the values left by the calls on distinct objects are the genuine ones *)
-Lemma fresh_ext_mul_value : forall p irred g a b c,
-  freshP (ext_op p irred 2) g a b c = pmodv p (strip0 p (pmulv p a b)) irred.
-Proof. intros. esolve. Qed.
-Lemma fresh_ext_axmy_value : forall p irred g a b c,
-  freshP (ext_op p irred 7) g a b c = strip0 p (psubv p (pmodv p (strip0 p (pmulv p a b)) irred) c).
-Proof. intros. esolve. Qed.
-Lemma fresh_ext_div_value : forall p irred g a b c,
-  freshP (ext_op p irred 3) g a b c = pmodv p (strip0 p (pmulv p a (pinvmodv p b irred))) irred.
-Proof. intros. esolve. Qed.
-
-(* seeded change C15-m6 (operands of axmy by const reference): over GF(7)[X]/(X^2+1), axmy(r,a,b,r) returns 0 *)
-Lemma ext_axmy_byref_refuted : ~ Pure_destP (ext_op_byref 7 [1; 0; 1] 7).
-Proof.
-  intro H. specialize (H (pst [(1%positive, [3; 4]); (2%positive, [2; 1]); (3%positive, [5; 6])])
-                         1%positive 2%positive 3%positive 1%positive []).
-  vm_compute in H. discriminate H.
-Qed.
-Example ext_axmy_byvalue_example :
-  let h := pst [(1%positive, [3; 4]); (2%positive, [2; 1]); (3%positive, [5; 6])] in
-  pexec (ext_op 7 [1; 0; 1] 7 (U 1) (U 2) (U 3) (U 1)) h (U 1) = [1; 6] /\
-  freshP (ext_op 7 [1; 0; 1] 7) [] (h (U 2)) (h (U 3)) (h (U 1)) = [1; 6] /\
-  pexec (ext_op_byref 7 [1; 0; 1] 7 (U 1) (U 2) (U 3) (U 1)) h (U 1) = [].
-Proof. vm_compute. repeat split. Qed.
-Example ext_alias_example :      (* div(r,a,r) and invin(r) over GF(7)[X]/(X^2+1) *)
-  let h := pst [(1%positive, [2; 1]); (2%positive, [6; 4])] in
-  pexec (ext_op 7 [1; 0; 1] 3 (U 1) (U 2) (U 1) (U 1)) h (U 1) = [6; 6] /\
-  pexec (ext_op 7 [1; 0; 1] 17 (U 1) (U 1) (U 1) (U 1)) h (U 1) = [6; 4].
-Proof. vm_compute. repeat split. Qed.
+Lemma pexec_load : forall B (l : loc) (k : poly -> PM B) h, pexec (pbind (pload l) k) h = pexec (k (h l)) h.
+Proof. reflexivity. Qed.
+Lemma pexec_ret : forall A B (v : A) (k : A -> PM B) h, pexec (pbind (pret v) k) h = pexec (k v) h.
+Proof. reflexivity. Qed.
 
 (* ================================================================== normal forms
    strip0 only looks at the coefficients modulo p: used where a guard copies an OPERAND with assign (which
@@ -138,10 +136,6 @@ Qed.
 
 Lemma strip0_pmulv_strip0_r : forall p a b, strip0 p (pmulv p a (strip0 p b)) = strip0 p (pmulv p a b).
 Proof. intros. apply ceq_strip0_eq, ceq_pmulv_r, ceq_strip0. Qed.
-Lemma pdivv_strip0_r : forall p a b, pdivv p a (strip0 p b) = pdivv p a b.
-Proof. intros. unfold pdivv. rewrite strip0_idem. reflexivity. Qed.
-Lemma pmodv_strip0_r : forall p a b, pmodv p a (strip0 p b) = pmodv p a b.
-Proof. intros. unfold pmodv. rewrite pdivv_strip0_r, strip0_pmulv_strip0_r. reflexivity. Qed.
 Lemma pdeg1_strip0 : forall p a, pdeg1 p (strip0 p a) = pdeg1 p a.
 Proof. intros. unfold pdeg1. rewrite strip0_idem. reflexivity. Qed.
 Lemma pz_strip0 : forall p a, pz p (strip0 p a) = pz p a.
@@ -152,18 +146,25 @@ Lemma ple1_strip0 : forall p a, ple1 p (strip0 p a) = ple1 p a.
 Proof. intros. unfold ple1. rewrite pdeg1_strip0. reflexivity. Qed.
 Lemma pge_strip0 : forall p a b, pge p (strip0 p a) (strip0 p b) = pge p a b.
 Proof. intros. unfold pge. rewrite !pdeg1_strip0. reflexivity. Qed.
+Lemma pge_strip0_r : forall p a b, pge p a (strip0 p b) = pge p a b.
+Proof. intros. unfold pge. rewrite pdeg1_strip0. reflexivity. Qed.
+Lemma pdegx_strip0_r : forall p a b, pdegx p a (strip0 p b) = pdegx p a b.
+Proof. intros. unfold pdegx. rewrite pdeg1_strip0. reflexivity. Qed.
+Lemma pdivv_strip0_r : forall p a b, pdivv p a (strip0 p b) = pdivv p a b.
+Proof. intros. unfold pdivv. rewrite pge_strip0_r, pc_strip0, pdegx_strip0_r, !strip0_idem. reflexivity. Qed.
+Lemma pmodv_strip0_r : forall p a b, pmodv p a (strip0 p b) = pmodv p a b.
+Proof. intros. unfold pmodv. rewrite pdivv_strip0_r, strip0_pmulv_strip0_r. reflexivity. Qed.
 Lemma leadv_strip0 : forall p a, leadv p (strip0 p a) = leadv p a.
 Proof. intros. unfold leadv. rewrite strip0_idem. reflexivity. Qed.
 Lemma xfuel_strip0 : forall p a b, xfuel p (strip0 p a) (strip0 p b) = xfuel p a b.
 Proof. intros. unfold xfuel. rewrite !pdeg1_strip0. reflexivity. Qed.
 Lemma strip0_pmodv : forall p a b, strip0 p (pmodv p a b) = pmodv p a b.
 Proof. intros. unfold pmodv. apply strip0_idem. Qed.
-Lemma strip0_pdivsc : forall p a c, strip0 p (pdivsc p a c) = pdivsc p a c.
-Proof. intros. unfold pdivsc. apply strip0_idem. Qed.
 Lemma strip0_pmulsc : forall p a c, strip0 p (pmulsc p a c) = pmulsc p a c.
 Proof. intros. unfold pmulsc. apply strip0_idem. Qed.
 Lemma strip0_pconst : forall p c, strip0 p (pconst p c) = pconst p c.
 Proof. intros. unfold pconst. apply strip0_idem. Qed.
+Ltac nrm_r := rewrite ?strip0_idem, ?pge_strip0_r, ?pc_strip0, ?pdegx_strip0_r.
 Ltac nrm := rewrite ?strip0_idem, ?strip0_pdivv, ?pdivv_strip0_r, ?strip0_pmulv_strip0_r, ?pz_strip0, ?pc_strip0,
                     ?ple1_strip0, ?pge_strip0, ?leadv_strip0, ?xfuel_strip0, ?strip0_pdivsc, ?strip0_pmulsc, ?strip0_pconst.
 
@@ -178,8 +179,8 @@ Definition Poly_divmodin_alias_free : Prop :=
 Lemma poly_divmodin_alias_free : Poly_divmodin_alias_free.
 Proof.
   intros p h q r b N. cbv zeta. unfold divmodin_val. split.
-  - split_locs; esolve; nrm; reflexivity.
-  - intros l L1 L2. split_locs; esolve.
+  - split_locs; estepv; nrm_r; esolvev; nrm; reflexivity.
+  - intros l L1 L2. split_locs; estep; nrm_r; esolve.
 Qed.
 (* without the guard: divmodin(Q,R,Q) over GF(101) *)
 Lemma poly_divmodin_unguarded_refuted :
@@ -196,9 +197,6 @@ Proof. vm_compute. reflexivity. Qed.
 
 (* ================================================================== the extended Euclid loop *)
 Definition stl (f g s0 s1 t0 t1 : loc) (h : pstore) : xst := XS (h f) (h g) (h s0) (h s1) (h t0) (h t1).
-
-Lemma pexec_load : forall B (l : loc) (k : poly -> PM B) h, pexec (pbind (pload l) k) h = pexec (k (h l)) h.
-Proof. reflexivity. Qed.
 
 Lemma V_iszero_run : forall p g h, V_iszero p g h = (pz p (h g), h).
 Proof. reflexivity. Qed.
@@ -228,7 +226,7 @@ Section XLoop.
   Qed.
 End XLoop.
 
-Ltac xstep_tac := intros; unfold stl, xstepv; cbn [xF xG xS0 xS1 xT0 xT1]; f_equal; esolve; nrm; try reflexivity.
+Ltac xstep_tac := intros; unfold stl, xstepv; cbn [xF xG xS0 xS1 xT0 xT1]; f_equal; esolvev; nrm; try reflexivity.
 
 (* instance of gcd(F,S0,T0,A,B): F, S0, T0 caller objects *)
 Lemma xstep_gcd : forall p (f s t : positive) h, f <> s -> f <> t -> s <> t ->
@@ -254,6 +252,239 @@ Ltac keep_facts :=
 Lemma xstep_gcd_frame : forall p (f s t : positive) h l, keepU [f; s; t] l ->
   pexec (X_step p (U f) (T 43) (U s) (T 44) (U t) (T 46)) h l = h l.
 Proof. intros p f s t h [l|n] K; keep_facts. esolve. Qed.
+
+
+(* ================================================================== invmod(S0,A,B): head + S half of the same body *)
+Definition stl4 (f g s0 s1 : loc) (h : pstore) : yst := YS (h f) (h g) (h s0) (h s1).
+Section ILoop.
+  Variable p : Z.
+  Variables f g s0 s1 : loc.
+  Variable keep : loc -> Prop.
+  Hypothesis step_spec : forall h, stl4 f g s0 s1 (pexec (I_step p f g s0 s1) h) = ystepv p (stl4 f g s0 s1 h).
+  Hypothesis step_frame : forall h l, keep l -> pexec (I_step p f g s0 s1) h l = h l.
+
+  Lemma I_loop_spec : forall n h,
+    stl4 f g s0 s1 (pexec (I_loop p n f g s0 s1) h) = yloopv p n (stl4 f g s0 s1 h).
+  Proof.
+    induction n as [|n IH]; intro h; [reflexivity|].
+    cbn [I_loop yloopv]. rewrite pexec_bind, V_iszero_run. cbn [fst snd].
+    change (yG (stl4 f g s0 s1 h)) with (h g).
+    destruct (pz p (h g)); [reflexivity|].
+    rewrite pexec_bind, IH. f_equal. apply step_spec.
+  Qed.
+  Lemma I_loop_frame : forall n h l, keep l -> pexec (I_loop p n f g s0 s1) h l = h l.
+  Proof.
+    induction n as [|n IH]; intros h l K; [reflexivity|].
+    cbn [I_loop]. rewrite pexec_bind, V_iszero_run. cbn [fst snd].
+    destruct (pz p (h g)); [reflexivity|].
+    rewrite pexec_bind, IH by exact K. apply step_frame. exact K.
+  Qed.
+End ILoop.
+
+Ltac istep_tac := intros; unfold stl4, ystepv; cbn [yF yG yS0 yS1]; f_equal; esolvev; nrm; try reflexivity.
+(* S0 a caller object; S0 the local ib of Extension::div (T 20) or tmp of Extension::divin (T 28) *)
+Lemma istep_U : forall p (r : positive) h,
+  stl4 (T 73) (T 74) (U r) (T 75) (pexec (I_step p (T 73) (T 74) (U r) (T 75)) h) = ystepv p (stl4 (T 73) (T 74) (U r) (T 75) h).
+Proof. istep_tac. Qed.
+Lemma istep_U_frame : forall p (r : positive) h l, keepU [r] l -> pexec (I_step p (T 73) (T 74) (U r) (T 75)) h l = h l.
+Proof. intros p r h [l|n] K; keep_facts. esolve. Qed.
+Lemma istep_T20 : forall p h,
+  stl4 (T 73) (T 74) (T 20) (T 75) (pexec (I_step p (T 73) (T 74) (T 20) (T 75)) h) = ystepv p (stl4 (T 73) (T 74) (T 20) (T 75) h).
+Proof. istep_tac. Qed.
+Lemma istep_T20_frame : forall p h l, keepU [] l -> pexec (I_step p (T 73) (T 74) (T 20) (T 75)) h l = h l.
+Proof. intros p h [l|n] K; keep_facts. esolve. Qed.
+Lemma istep_T28 : forall p h,
+  stl4 (T 73) (T 74) (T 28) (T 75) (pexec (I_step p (T 73) (T 74) (T 28) (T 75)) h) = ystepv p (stl4 (T 73) (T 74) (T 28) (T 75) h).
+Proof. istep_tac. Qed.
+Lemma istep_T28_frame : forall p h l, keepU [] l -> pexec (I_step p (T 73) (T 74) (T 28) (T 75)) h l = h l.
+Proof. intros p h [l|n] K; keep_facts. esolve. Qed.
+
+(* the body: symbolic execution of the prefix (S0 is written after A and B have been saved), the loop by I_loop_spec *)
+Ltac invmod_script p S0 spec K frm :=
+  unfold P_invmod, pinvmodv; cbn [prd]; repeat (rewrite pexec_load || rewrite pexec_ret); cbv beta;
+  match goal with |- context [if ?c then _ else _] => destruct c end;
+  [ split; intros; esolve; nrm; reflexivity | ];
+  rewrite !pexec_bind;
+  match goal with |- context [pexec (I_loop p ?n ?f ?g _ ?s1) ?hh] =>
+    let H := fresh "H" in let n0 := fresh "n" in let E := fresh "E" in let EH := fresh "EH" in
+    set (H := hh); set (n0 := n);
+    pose proof (f_equal yS0 (I_loop_spec p f g S0 s1 spec n0 H)) as E; cbn [stl4 yS0] in E;
+    split;
+    [ rewrite E; clear E;
+      match goal with |- yS0 (yloopv p n0 ?st) = yS0 (yloopv p n0 ?st') =>
+        assert (EH : st = st') by (unfold H, stl4; f_equal; esolve; nrm; reflexivity) end;
+      rewrite EH; reflexivity
+    | intros;
+      match goal with |- _ (U ?l) = _ =>
+        rewrite (I_loop_frame p f g S0 s1 K frm n0 H (U l)) by (cbn [keepU In]; intuition congruence);
+        unfold H; esolve end ]
+  end.
+
+(* B a constant of the domain (Extension: _irred); S0 may be A *)
+Lemma invmod_UK : forall p bv h (r a : positive),
+  pexec (P_invmod p (U r) (U a) (PK bv)) h (U r) = pinvmodv p (h (U a)) bv /\
+  (forall l, l <> r -> pexec (P_invmod p (U r) (U a) (PK bv)) h (U l) = h (U l)).
+Proof.
+  intros p bv h r a. destruct (Pos.eq_dec r a) as [->|N].
+  - invmod_script p (U a) (istep_U p a) (keepU [a]) (istep_U_frame p a).
+  - invmod_script p (U r) (istep_U p r) (keepU [r]) (istep_U_frame p r).
+Qed.
+Lemma invmod_UT27 : forall p bv h (r : positive),
+  pexec (P_invmod p (U r) (T 27) (PK bv)) h (U r) = pinvmodv p (h (T 27)) bv /\
+  (forall l, l <> r -> pexec (P_invmod p (U r) (T 27) (PK bv)) h (U l) = h (U l)).
+Proof. intros p bv h r. invmod_script p (U r) (istep_U p r) (keepU [r]) (istep_U_frame p r). Qed.
+Lemma invmod_T20 : forall p bv h (a : positive),
+  pexec (P_invmod p (T 20) (U a) (PK bv)) h (T 20) = pinvmodv p (h (U a)) bv /\
+  (forall l, pexec (P_invmod p (T 20) (U a) (PK bv)) h (U l) = h (U l)).
+Proof. intros p bv h a. invmod_script p (T 20) (istep_T20 p) (keepU []) (istep_T20_frame p). Qed.
+Lemma invmod_T28 : forall p bv h (a : positive),
+  pexec (P_invmod p (T 28) (U a) (PK bv)) h (T 28) = pinvmodv p (h (U a)) bv /\
+  (forall l, pexec (P_invmod p (T 28) (U a) (PK bv)) h (U l) = h (U l)).
+Proof. intros p bv h a. invmod_script p (T 28) (istep_T28 p) (keepU []) (istep_T28_frame p). Qed.
+
+(* invmod(S0,A,B) on caller objects: S0 may be A, B or both, A may be B *)
+Definition Poly_invmod_alias_free : Prop :=
+  forall p (h : pstore) (r a b : positive),
+    let h' := pexec (P_invmod_l p (U r) (U a) (U b)) h in
+    h' (U r) = pinvmodv p (h (U a)) (h (U b)) /\ (forall l, l <> r -> h' (U l) = h (U l)).
+Lemma poly_invmod_alias_free : Poly_invmod_alias_free.
+Proof.
+  intros p h r a b. cbv zeta. unfold P_invmod_l.
+  split_locs;
+    match goal with |- pexec (P_invmod p (U ?s) _ _) _ _ = _ /\ _ =>
+      invmod_script p (U s) (istep_U p s) (keepU [s]) (istep_U_frame p s) end.
+Qed.
+(* S0 initialised before A and B are saved: invmod(A, A, B) over GF(101) returns 1 *)
+Lemma poly_invmod_s0_first_refuted :
+  exists (h : pstore) (r a b : positive),
+    pexec (P_invmod_s0_first 101 (U r) (U a) (PL (U b))) h (U r) <> pinvmodv 101 (h (U a)) (h (U b)).
+Proof.
+  exists (pst [(1%positive, [3; 1; 4; 1]); (2%positive, [66; 45; 76; 6; 3; 69; 1])]), 1%positive, 1%positive, 2%positive.
+  vm_compute. discriminate.
+Qed.
+Example poly_invmod_example :       (* invmod(A,A,B), invmod(B,A,B) and the call on three objects agree; the broken order does not *)
+  let h := pst [(1%positive, [3; 1; 4; 1]); (2%positive, [66; 45; 76; 6; 3; 69; 1])] in
+  (pexec (P_invmod_l 101 (U 1) (U 1) (U 2)) h (U 1), pexec (P_invmod_l 101 (U 2) (U 1) (U 2)) h (U 2),
+   pexec (P_invmod_l 101 (U 3) (U 1) (U 2)) h (U 3), pexec (P_invmod_s0_first 101 (U 1) (U 1) (PL (U 2))) h (U 1))
+  = ([39; 24; 78; 62; 3; 97], [39; 24; 78; 62; 3; 97], [39; 24; 78; 62; 3; 97], [1]).
+Proof. vm_compute. reflexivity. Qed.
+
+(* ================================================================== Extension<BaseField> *)
+Definition Ext_alias_free (p : Z) (irred : poly) : Prop :=
+  (forall n, (n <= 8)%nat -> Pure_destP (ext_op p irred n)) /\
+  (forall n, (9 <= n)%nat -> InplaceP (ext_op p irred n)) /\
+  (forall n, FrameP (ext_op p irred n)).
+
+(* the four operations that run invmod's loop: value and frame from the invmod lemmas *)
+Lemma ext_inv_vf : forall p irred h (r a : positive),
+  pexec (E_inv p irred (U r) (U a)) h (U r) = pinvmodv p (h (U a)) irred /\
+  (forall l, l <> r -> pexec (E_inv p irred (U r) (U a)) h (U l) = h (U l)).
+Proof. intros. apply invmod_UK. Qed.
+Lemma ext_div_vf : forall p irred h (r a b : positive),
+  pexec (E_div p irred (U r) (U a) (U b)) h (U r)
+  = pmodinv p (strip0 p (pmulv p (h (U a)) (pinvmodv p (h (U b)) irred))) irred /\
+  (forall l, l <> r -> pexec (E_div p irred (U r) (U a) (U b)) h (U l) = h (U l)).
+Proof.
+  intros p irred h r a b. unfold E_div, E_inv. rewrite pexec_bind.
+  destruct (invmod_T20 p irred h b) as [EV EF]. unfold pexec in EV, EF.
+  set (H1 := snd (P_invmod p (T 20) (U b) (PK irred) h)) in *.
+  split.
+  - destruct (Pos.eq_dec r a) as [->|N]; estep; rewrite ?EV, ?EF, ?strip0_idem; reflexivity.
+  - intros l L. destruct (Pos.eq_dec r a) as [->|N]; estep; rewrite ?EF; reflexivity.
+Qed.
+Lemma ext_divin_vf : forall p irred h (r b : positive),
+  pexec (E_divin p irred (U r) (U b)) h (U r)
+  = pmodinv p (strip0 p (pmulv p (h (U r)) (pinvmodv p (h (U b)) irred))) irred /\
+  (forall l, l <> r -> pexec (E_divin p irred (U r) (U b)) h (U l) = h (U l)).
+Proof.
+  intros p irred h r b. unfold E_divin, E_inv. rewrite pexec_bind.
+  destruct (invmod_T28 p irred h b) as [EV EF]. unfold pexec in EV, EF.
+  set (H1 := snd (P_invmod p (T 28) (U b) (PK irred) h)) in *.
+  split.
+  - estep; rewrite ?EV, ?EF, ?strip0_idem; reflexivity.
+  - intros l L. estep; rewrite ?EF; reflexivity.
+Qed.
+Lemma ext_invin_vf : forall p irred h (r : positive),
+  pexec (E_invin p irred (U r)) h (U r) = pinvmodv p (h (U r)) irred /\
+  (forall l, l <> r -> pexec (E_invin p irred (U r)) h (U l) = h (U l)).
+Proof.
+  intros p irred h r. unfold E_invin. rewrite pexec_bind.
+  set (H1 := snd (V_copy (T 27) (U r) h)).
+  destruct (invmod_UT27 p irred H1 r) as [EV EF].
+  split.
+  - rewrite EV. unfold H1. estep. reflexivity.
+  - intros l L. rewrite EF by exact L. unfold H1. estep. reflexivity.
+Qed.
+
+Lemma ext_pure : forall p irred n, (n <= 8)%nat -> Pure_destP (ext_op p irred n).
+Proof.
+  intros p irred n Hn h r a b c g. each_op n.
+  4: { unfold freshP. cbn [ext_op].
+       rewrite (proj1 (ext_div_vf p irred h r a b)),
+               (proj1 (ext_div_vf p irred (pmk4 1 2 3 4 g (h (U a)) (h (U b)) (h (U c))) 1 2 3)). reflexivity. }
+  5: { unfold freshP. cbn [ext_op].
+       rewrite (proj1 (ext_inv_vf p irred h r a)),
+               (proj1 (ext_inv_vf p irred (pmk4 1 2 3 4 g (h (U a)) (h (U b)) (h (U c))) 1 2)). reflexivity. }
+  all: split_locs; esolve.
+Qed.
+Lemma ext_inplace : forall p irred n, (9 <= n)%nat -> InplaceP (ext_op p irred n).
+Proof.
+  intros p irred n Hn h r a b c. each_op n.
+  7: { unfold freshP. cbn [ext_op].
+       rewrite (proj1 (ext_divin_vf p irred h r a)),
+               (proj1 (ext_divin_vf p irred (pmk4 1 2 3 4 (h (U r)) (h (U a)) (h (U b)) (h (U c))) 1 2)). reflexivity. }
+  8: { unfold freshP. cbn [ext_op].
+       rewrite (proj1 (ext_invin_vf p irred h r)),
+               (proj1 (ext_invin_vf p irred (pmk4 1 2 3 4 (h (U r)) (h (U a)) (h (U b)) (h (U c))) 1)). reflexivity. }
+  8: { unfold freshP. cbn [ext_op].
+       rewrite (proj1 (ext_invin_vf p irred h r)),
+               (proj1 (ext_invin_vf p irred (pmk4 1 2 3 4 (h (U r)) (h (U a)) (h (U b)) (h (U c))) 1)). reflexivity. }
+  all: split_locs; esolve.
+Qed.
+Lemma ext_frame : forall p irred n, FrameP (ext_op p irred n).
+Proof.
+  intros p irred n h r a b c l N. each_op n.
+  4: { cbn [ext_op]. apply ext_div_vf. exact N. }
+  5: { cbn [ext_op]. apply ext_inv_vf. exact N. }
+  14: { cbn [ext_op]. apply ext_divin_vf. exact N. }
+  15: { cbn [ext_op]. apply ext_invin_vf. exact N. }
+  15: { cbn [ext_op]. apply ext_invin_vf. exact N. }
+  all: split_locs; esolve.
+Qed.
+Lemma ext_alias_free : forall p irred, Ext_alias_free p irred.
+Proof. intros. split; [|split]; intros; [apply ext_pure|apply ext_inplace|apply ext_frame]; assumption. Qed.
+
+(* the values left by the calls on distinct objects are the genuine ones *)
+Lemma fresh_ext_mul_value : forall p irred g a b c,
+  freshP (ext_op p irred 2) g a b c = pmodinv p (strip0 p (pmulv p a b)) irred.
+Proof. intros. esolve. Qed.
+Lemma fresh_ext_axmy_value : forall p irred g a b c,
+  freshP (ext_op p irred 7) g a b c = strip0 p (psubv p (pmodinv p (strip0 p (pmulv p a b)) irred) c).
+Proof. intros. esolve. Qed.
+Lemma fresh_ext_div_value : forall p irred g a b c,
+  freshP (ext_op p irred 3) g a b c = pmodinv p (strip0 p (pmulv p a (pinvmodv p b irred))) irred.
+Proof.
+  intros. unfold freshP. cbn [ext_op]. rewrite (proj1 (ext_div_vf p irred (pmk4 1 2 3 4 g a b c) 1 2 3)). reflexivity.
+Qed.
+
+(* seeded change C15-m6 (operands of axmy by const reference): over GF(7)[X]/(X^2+1), axmy(r,a,b,r) returns 0 *)
+Lemma ext_axmy_byref_refuted : ~ Pure_destP (ext_op_byref 7 [1; 0; 1] 7).
+Proof.
+  intro H. specialize (H (pst [(1%positive, [3; 4]); (2%positive, [2; 1]); (3%positive, [5; 6])])
+                         1%positive 2%positive 3%positive 1%positive []).
+  vm_compute in H. discriminate H.
+Qed.
+Example ext_axmy_byvalue_example :
+  let h := pst [(1%positive, [3; 4]); (2%positive, [2; 1]); (3%positive, [5; 6])] in
+  pexec (ext_op 7 [1; 0; 1] 7 (U 1) (U 2) (U 3) (U 1)) h (U 1) = [1; 6] /\
+  freshP (ext_op 7 [1; 0; 1] 7) [] (h (U 2)) (h (U 3)) (h (U 1)) = [1; 6] /\
+  pexec (ext_op_byref 7 [1; 0; 1] 7 (U 1) (U 2) (U 3) (U 1)) h (U 1) = [].
+Proof. vm_compute. repeat split. Qed.
+Example ext_alias_example :      (* div(r,a,r) and invin(r) over GF(7)[X]/(X^2+1) *)
+  let h := pst [(1%positive, [2; 1]); (2%positive, [6; 4])] in
+  pexec (ext_op 7 [1; 0; 1] 3 (U 1) (U 2) (U 1) (U 1)) h (U 1) = [6; 6] /\
+  pexec (ext_op 7 [1; 0; 1] 17 (U 1) (U 1) (U 1) (U 1)) h (U 1) = [6; 4].
+Proof. vm_compute. repeat split. Qed.
 
 (* ================================================================== gcd(F,S0,T0,A,B) *)
 Definition gcdx_val (p : Z) (x y : poly) : poly * poly * poly :=
@@ -540,8 +771,20 @@ Proof.
   repeat (destruct Hn as [<-|Hn]; [split_locs; bsolve|]). contradiction.
 Qed.
 
+(* modin(A,B): A may be B; the value is the one of the rounds run with B a distinct object (pmodinv) *)
+Definition Poly_modin_alias_free : Prop :=
+  forall p (h : pstore) (a b : positive),
+    let h' := pexec (P_modin p (U a) (U b)) h in
+    h' (U a) = pmodinv p (h (U a)) (h (U b)) /\ (forall l, l <> a -> h' (U l) = h (U l)).
+Lemma poly_modin_alias_free : Poly_modin_alias_free.
+Proof.
+  intros p h a b. cbv zeta. split.
+  - split_locs; esolve.
+  - intros l L. split_locs; esolve.
+Qed.
+
 (* ================================================================== powmod(W,P,pwr,U) *)
-Definition pw_oddv (p : Z) (W P Uv : poly) : poly := pmodv p (strip0 p (pmulv p W P)) Uv.
+Definition pw_oddv (p : Z) (W P Uv : poly) : poly := pmodinv p (strip0 p (pmulv p W P)) Uv.      (* mulin; modin *)
 Definition pw_sqv (p : Z) (P Uv : poly) : poly := pmodv p (strip0 p (pmulv p P P)) Uv.
 Fixpoint pw_loopv (p : Z) (e : positive) (W P Uv : poly) : poly * poly :=
   match e with
@@ -551,14 +794,14 @@ Fixpoint pw_loopv (p : Z) (e : positive) (W P Uv : poly) : poly * poly :=
   end.
 Definition powmod_val (p : Z) (x : poly) (e : Z) (u : poly) : poly :=
   strip0 p (match e with
-            | Z0 => pconst p 1
-            | Zpos e' => fst (pw_loopv p e' (pconst p 1) (pmodv p x u) u)
-            | Zneg e' => fst (pw_loopv p e' (pconst p 1) (pmodv p x u) u)
+            | Z0 => pmodv p (pconst p 1) u                      (* mod(W, one, U): zero when U is a non zero constant *)
+            | Zpos e' => fst (pw_loopv p e' (pmodv p (pconst p 1) u) (pmodv p x u) u)
+            | Zneg e' => fst (pw_loopv p e' (pmodv p (pconst p 1) u) (pmodv p x u) u)
             end).
 Lemma pw_loopv_strip0 : forall p e W P Uv, pw_loopv p e W P (strip0 p Uv) = pw_loopv p e W P Uv.
 Proof.
   intros p e. induction e as [e IH|e IH|]; intros W P Uv; cbn [pw_loopv]; unfold pw_oddv, pw_sqv;
-    rewrite ?pmodv_strip0_r, ?IH; reflexivity.
+    unfold pmodinv; rewrite ?pmodv_strip0_r, ?pmodin_strip0_r, ?IH; reflexivity.
 Qed.
 Lemma powmod_val_strip0 : forall p x e u, powmod_val p x e (strip0 p u) = powmod_val p x e u.
 Proof. intros. unfold powmod_val. destruct e; rewrite ?pw_loopv_strip0, ?pmodv_strip0_r; reflexivity. Qed.
@@ -614,7 +857,7 @@ Ltac pw_facts :=
   try match goal with
       | K : keep2 _ _ |- _ => destruct K as [->|K]; [| match goal with l : loc |- _ => destruct l; keep_facts end]
       end;
-  esolve; nrm; try reflexivity.
+  esolvev; nrm; try reflexivity.
 
 Lemma pw_loop_U : forall p (w u : positive), w <> u -> forall e h,
   (pexec (PW_loop p e (U w) (U u)) h (U w), pexec (PW_loop p e (U w) (U u)) h (T 61))
@@ -645,40 +888,84 @@ Proof.
   - pw_facts.
 Qed.
 
-(* the body after the guard, U the caller's object (W is not U) or the local copy Ut *)
-Ltac pw_body_script p h w a e LL uloc :=
-  cbv zeta; unfold PW_body, powmod_val; do 3 rewrite pexec_bind;
-  destruct e as [|e|e];
-  [ split; intros; split_locs; esolve; nrm; reflexivity | | ];
-  (match goal with |- context [snd (PW_loop p e (U w) uloc ?hh)] =>
-     let H1 := fresh "H" in let H3 := fresh "H" in let LV := fresh "LV" in let LF := fresh "LF" in
-     let Ew := fresh "Ew" in let E61 := fresh "E61" in let Eu := fresh "Eu" in
-     set (H1 := hh);
-     destruct (LL e H1) as [LV LF]; apply (f_equal fst) in LV; cbn [fst] in LV;
-     assert (Ew : H1 (U w) = pconst p 1) by (unfold H1; esolve);
-     assert (E61 : H1 (T 61) = pmodv p (h (U a)) (h uloc)) by (unfold H1; split_locs; esolve; nrm; reflexivity);
-     assert (Eu : H1 uloc = h uloc) by (unfold H1; esolve);
-     rewrite Ew, E61, Eu in LV;
-     unfold pexec in LV, LF |- *;
-     set (H3 := snd (PW_loop p e (U w) uloc H1)) in *;
-     split;
-     [ estep; rewrite LV; reflexivity
-     | intros; estep;
-       match goal with |- H3 (U ?l) = _ =>
-         rewrite (LF (U l)) by (right; cbn [keepU In]; intuition congruence); unfold H1; esolve end ]
-   end).
+(* the body after the guard, U the caller's object (W is not U) or the local copy Ut: statement after statement *)
+Lemma pexec_seq : forall A B (c : PM A) (d : PM B) h, pexec (c ;;; d) h = pexec d (pexec c h).
+Proof. intros. unfold pexec, pbind. destruct (c h). reflexivity. Qed.
+
+Section PWBody.
+  Variable p : Z.
+  Variables w a : positive.
+  Variable u : loc.
+  Hypothesis m61_v : forall h, pexec (P_mod p (T 61) (U a) u) h (T 61) = pmodv p (h (U a)) (h u).
+  Hypothesis m61_u : forall h, pexec (P_mod p (T 61) (U a) u) h u = h u.
+  Hypothesis m61_f : forall h l, pexec (P_mod p (T 61) (U a) u) h (U l) = h (U l).
+  Hypothesis c67_u : forall h, pexec (V_const p (T 67) 1) h u = h u.
+  Hypothesis mw_v : forall h, pexec (P_mod p (U w) (T 67) u) h (U w) = pmodv p (h (T 67)) (h u).
+  Hypothesis mw_61 : forall h, pexec (P_mod p (U w) (T 67) u) h (T 61) = h (T 61).
+  Hypothesis mw_u : forall h, pexec (P_mod p (U w) (T 67) u) h u = h u.
+  Hypothesis mw_f : forall h l, l <> w -> pexec (P_mod p (U w) (T 67) u) h (U l) = h (U l).
+  Hypothesis loop : forall e h,
+    (pexec (PW_loop p e (U w) u) h (U w), pexec (PW_loop p e (U w) u) h (T 61)) = pw_loopv p e (h (U w)) (h (T 61)) (h u) /\
+    (forall l, keep2 [w] l -> pexec (PW_loop p e (U w) u) h l = h l).
+
+  Lemma PW_body_spec : forall e h,
+    pexec (PW_body p (U w) (U a) e u) h (U w) = powmod_val p (h (U a)) e (h u) /\
+    (forall l, l <> w -> pexec (PW_body p (U w) (U a) e u) h (U l) = h (U l)).
+  Proof.
+    intros e h. unfold PW_body. rewrite !pexec_seq.
+    set (h1 := pexec (P_mod p (T 61) (U a) u) h).
+    set (h2 := pexec (V_const p (T 67) 1) h1).
+    set (h3 := pexec (P_mod p (U w) (T 67) u) h2).
+    assert (E2u : h2 u = h u) by (unfold h2, h1; rewrite c67_u, m61_u; reflexivity).
+    assert (E3w : h3 (U w) = pmodv p (pconst p 1) (h u)) by (unfold h3; rewrite mw_v, E2u; reflexivity).
+    assert (E361 : h3 (T 61) = pmodv p (h (U a)) (h u)).
+    { unfold h3. rewrite mw_61. change (h2 (T 61)) with (h1 (T 61)). apply m61_v. }
+    assert (E3u : h3 u = h u) by (unfold h3; rewrite mw_u; exact E2u).
+    assert (E3f : forall l, l <> w -> h3 (U l) = h (U l)).
+    { intros l L. unfold h3. rewrite mw_f by exact L. change (h2 (U l)) with (h1 (U l)). apply m61_f. }
+    assert (AV : forall hh, pexec (V_assign p (U w) (U w)) hh (U w) = strip0 p (hh (U w))) by (intro; esolve).
+    assert (AF : forall hh l, l <> w -> pexec (V_assign p (U w) (U w)) hh (U l) = hh (U l)) by (intros; esolve).
+    unfold powmod_val.
+    destruct e as [|e|e].
+    - change (pexec pskip h3) with h3. split; [rewrite AV, E3w; reflexivity | intros l L; rewrite AF by exact L; apply E3f; exact L].
+    - destruct (loop e h3) as [LV LF]. apply (f_equal fst) in LV. cbn [fst] in LV. rewrite E3w, E361, E3u in LV. split.
+      + rewrite AV, LV. reflexivity.
+      + intros l L. rewrite AF by exact L. rewrite (LF (U l)) by (right; cbn [keepU In]; intuition congruence). apply E3f; exact L.
+    - destruct (loop e h3) as [LV LF]. apply (f_equal fst) in LV. cbn [fst] in LV. rewrite E3w, E361, E3u in LV. split.
+      + rewrite AV, LV. reflexivity.
+      + intros l L. rewrite AF by exact L. rewrite (LF (U l)) by (right; cbn [keepU In]; intuition congruence). apply E3f; exact L.
+  Qed.
+End PWBody.
 
 Lemma pw_body_U : forall p h (w a u : positive) e, w <> u ->
   let h' := pexec (PW_body p (U w) (U a) e (U u)) h in
   h' (U w) = powmod_val p (h (U a)) e (h (U u)) /\ (forall l, l <> w -> h' (U l) = h (U l)).
 Proof.
-  intros p h w a u e N. pw_body_script p h w a e (pw_loop_U p w u N) (U u).
+  intros p h w a u e N. cbv zeta. apply PW_body_spec.
+  - intro h0. split_locs; esolvev.
+  - intro h0. split_locs; esolve.
+  - intros h0 l. split_locs; esolve.
+  - intro h0. esolve.
+  - intro h0. esolvev.
+  - intro h0. esolve.
+  - intro h0. esolve.
+  - intros h0 l L. split_locs; esolve.
+  - apply pw_loop_U. exact N.
 Qed.
 Lemma pw_body_T : forall p h (w a : positive) e,
   let h' := pexec (PW_body p (U w) (U a) e (T 63)) h in
   h' (U w) = powmod_val p (h (U a)) e (h (T 63)) /\ (forall l, l <> w -> h' (U l) = h (U l)).
 Proof.
-  intros p h w a e. pw_body_script p h w a e (pw_loop_T p w) (T 63).
+  intros p h w a e. cbv zeta. apply PW_body_spec.
+  - intro h0. esolvev.
+  - intro h0. esolve.
+  - intros h0 l. split_locs; esolve.
+  - intro h0. esolve.
+  - intro h0. esolvev.
+  - intro h0. esolve.
+  - intro h0. esolve.
+  - intros h0 l L. split_locs; esolve.
+  - apply pw_loop_T.
 Qed.
 
 Definition Poly_powmod_alias_free : Prop :=
@@ -701,6 +988,11 @@ Proof.
 Qed.
 Example poly_powmod_example :       (* powmod(U, P, 5, U) over GF(101) *)
   pexec (P_powmod 101 (U 1) (U 2) 5 (U 1)) (pst [(1%positive, [66; 45; 76; 1]); (2%positive, [3; 1])]) (U 1) = [54; 28; 87].
+Proof. vm_compute. reflexivity. Qed.
+Example poly_powmod_const_modulus_example :       (* P^0 mod U and P^3 mod U, U = 66 a constant: zero; P^0 mod (X^3+..) = 1 *)
+  let h := pst [(1%positive, [66]); (2%positive, [3; 1]); (3%positive, [66; 45; 76; 1])] in
+  (pexec (P_powmod 101 (U 1) (U 2) 0 (U 1)) h (U 1), pexec (P_powmod 101 (U 4) (U 2) 3 (U 1)) h (U 4),
+   pexec (P_powmod 101 (U 3) (U 2) 0 (U 3)) h (U 3)) = ([], [], [1]).
 Proof. vm_compute. reflexivity. Qed.
 
 (* ================================================================== the single destination entry points together
